@@ -59,6 +59,8 @@ pub enum FunctionBody {
 impl FunctionBody {
   /// Evaluates function body, takes a [Scope] as input and returns evaluated [Value].
   pub fn evaluate(&self, scope: &Scope) -> Value {
+    #[cfg(dmntk_verif)]
+    let _function_body_guard = crate::verif::enter_function_body();
     match self {
       FunctionBody::Context(evaluator) => evaluator(scope),
       FunctionBody::LiteralExpression(evaluator) => evaluator(scope),
